@@ -22,7 +22,8 @@ PARTIAL = ["joint mass = 1 is proved for exact column sums (C05_joint_mass_one) 
            "t = atol + rtol (numpy allclose) is compared per generated network in the correspondence",
            "state-name preservation is compared differentially (labels are not part of the table model)"]
 RULE = ("random CPDs with 0-3 parents, cards 1-4, all label kinds, every parent permutation / subset; validation on networks that are "
-        "correct or wrong in exactly one respect; non-trivial = at least one parent or a mutated network; distinct = distinct case JSON")
+        "correct or wrong in exactly one respect; non-trivial = at least one parent or a mutated network; distinct = distinct case JSON"
+        " Also: CPDs with 8-10 parents, unnormalised tables through reduce / marginalize, edit + normalize after every transformation, construction from float64 arrays the caller writes to afterwards.")
 ASSUMPTIONS = ["numpy allclose default rtol=1e-5 is read from numpy at run time; atol is extracted from the source"]
 BUDGET_QUICK = 60
 
